@@ -164,32 +164,72 @@ theorem index_key_small (a b : IpNlri) (ha : WF a) (hb : WF b) (hk : a.kind = b.
     have e7 := optBytes_inj hr e6.2.1
     exact key_ext e1 e2 e4 (by have := e6.1; omega) e6.2.2 e7
 
-theorem flag_inj (p q r s : Option Bytes)
-    (h : ((if p.isSome then 1 else 0) + (if r.isSome then 2 else 0) : Nat)
-       = (if q.isSome then 1 else 0) + (if s.isSome then 2 else 0)) :
-    p.isSome = q.isSome ∧ r.isSome = s.isSome := by
-  cases p <;> cases q <;> cases r <;> cases s <;> simp at h ⊢
+theorem tagFix_split {k : Kind} {p q : Option Bytes} {x y : Bytes}
+    (hp : ∀ b, p = some b → b.length = 4) (hq : ∀ b, q = some b → b.length = 4)
+    (h : tagFix k p ++ x = tagFix k q ++ y) : p = q ∧ x = y := by
+  cases p with
+  | none =>
+    cases q with
+    | none => exact ⟨rfl, List.append_cancel_left h⟩
+    | some b =>
+      exfalso
+      simp only [tagFix] at h
+      split at h <;> simp [disabled, nopi, pathWord] at h
+  | some a =>
+    have ha := hp a rfl
+    cases q with
+    | none =>
+      exfalso
+      simp only [tagFix] at h
+      split at h <;> simp [disabled, nopi, pathWord] at h
+    | some b =>
+      have hb := hq b rfl
+      simp only [tagFix] at h
+      split at h <;> split at h
+      · rename_i e1 e2
+        rw [e1.2, e2.2]; exact ⟨rfl, List.append_cancel_left h⟩
+      · exfalso; simp [nopi, pathWord] at h
+      · exfalso; simp [nopi, pathWord] at h
+      · simp only [List.append_assoc] at h
+        have h1 := List.append_cancel_left h
+        have h2 := List.append_inj h1 (by omega)
+        exact ⟨by rw [h2.1], h2.2⟩
 
-/-- The repaired encoding: no side condition. -/
-theorem indexFix_key (a b : IpNlri) (ha : WF a) (hb : WF b) (h : indexFix a = indexFix b) : key a = key b := by
+/-- The repaired encoding: no side condition (same class on both sides, as for `index`). -/
+theorem indexFix_key (a b : IpNlri) (ha : WF a) (hb : WF b) (hk : a.kind = b.kind)
+    (h : indexFix a = indexFix b) : key a = key b := by
   unfold indexFix at h
   simp only [List.append_assoc] at h
   obtain ⟨e1, e2, e3⟩ := fam_split ha.afi ha.safi hb.afi hb.safi h
-  simp only [List.cons_append, List.nil_append, List.cons.injEq] at e3
-  obtain ⟨hf, e4⟩ := e3
-  have hpr := flag_inj a.path b.path a.rd b.rd (by simpa [flagByte] using hf)
-  have hp := hpr.1
-  have hr := hpr.2
-  have hpl : (optBytes a.path).length = (optBytes b.path).length := by
-    have h1 := ha.path; have h2 := hb.path
-    cases hpa : a.path <;> cases hpb : b.path <;> simp_all [optBytes]
-  have e5 := List.append_inj e4 hpl
-  have e6 := optBytes_inj hp e5.1
-  have hl := optBytes_length_eq ha.rd hb.rd hr
-  have e7 := tail_inj hl (by simpa [List.append_assoc] using e5.2)
-  have hbits : rdBits a = rdBits b := by simp [rdBits, hr]
-  have e8 := optBytes_inj hr e7.2.1
-  exact key_ext e1 e2 e6 (by have := e7.1; omega) e7.2.2 e8
+  rw [hk] at e3
+  obtain ⟨e4, e5⟩ := tagFix_split ha.path hb.path e3
+  simp only [List.cons_append, List.nil_append, List.cons.injEq] at e5
+  obtain ⟨hm, e6⟩ := e5
+  cases hka : a.kind with
+  | inet =>
+    have hkb : b.kind = .inet := by rw [← hk, hka]
+    have ia := ha.inet hka
+    have ib := hb.inet hkb
+    simp only [rdFlag, hka, hkb, ia.2, ib.2, optBytes, List.nil_append] at e6
+    simp only [rdBits, ia.2, ib.2] at hm
+    exact key_ext e1 e2 e4 (by simpa using hm) e6 (by rw [ia.2, ib.2])
+  | label =>
+    have hkb : b.kind = .label := by rw [← hk, hka]
+    have ra := ha.label hka
+    have rb := hb.label hkb
+    simp only [rdFlag, hka, hkb, ra, rb, optBytes, List.nil_append] at e6
+    simp only [rdBits, ra, rb] at hm
+    exact key_ext e1 e2 e4 (by simpa using hm) e6 (by rw [ra, rb])
+  | vpn =>
+    have hkb : b.kind = .vpn := by rw [← hk, hka]
+    simp only [rdFlag, hka, hkb, List.cons_append, List.nil_append, List.cons.injEq] at e6
+    obtain ⟨hf, e7⟩ := e6
+    have hr : a.rd.isSome = b.rd.isSome := by
+      cases h1 : a.rd <;> cases h2 : b.rd <;> simp [h1, h2] at hf ⊢
+    have hl := optBytes_length_eq ha.rd hb.rd hr
+    have e8 := List.append_inj e7 hl
+    have hbits : rdBits a = rdBits b := by simp [rdBits, hr]
+    exact key_ext e1 e2 e4 (by omega) e8.2 (optBytes_inj hr e8.1)
 
 /-- For INET the hash key is the index without its (fixed-length) family prefix. -/
 theorem index_inet_hashKey (a : IpNlri) (hk : a.kind = .inet) : index a = famIndex a.afi a.safi ++ hashKey a := by
